@@ -16,6 +16,15 @@ M32 = 0xFFFFFFFF
 BES = ["fft64ref", "fft64avx"]
 
 
+def kv(tokens):
+    d = {}
+    for t in tokens:
+        if "=" in t:
+            k, v = t.split("=", 1)
+            d[k] = v
+    return d
+
+
 def rotr(x, r):
     r %= 32
     return ((x >> r) | (x << (32 - r))) & M32
@@ -52,6 +61,7 @@ def run(ctx):
     ]
     broken = []
     witness = None
+    known_size1 = []
     ok, failures = ctx.proof_gate(["Poulpy.Props.C15"])
     broken += failures
     binp = ctx.build_harness()
@@ -118,13 +128,73 @@ def run(ctx):
         a, b = r.next() & M32, r.next() & M32
         want = f"{b},{a}" if bit else f"{a},{b}"
         add(f"swap be={BES[bit]} a={a} b={b} bit={bit}", f"swap a={a} b={b} bit={bit}", want, ("swap", bit))
+    # ---- blind retrieval (statefull forward / reverse, one-shot) and blind selection
+    def idxword(v, rsh, bits):
+        """index field value v at [rsh, rsh+bits), random garbage in every other bit"""
+        g = r.next() & M32
+        mask = ((1 << bits) - 1) << rsh
+        return (g & ~mask & M32) | ((v << rsh) & mask)
+
+    def table(n):
+        return [(r.next() & M32) if r.chance(1, 2) else (1000 + i) for i in range(n)]
+    bk = 0
+    for ln in range(1, 9):                       # every length 1..8 with a 3-bit field, every index in range
+        for v in range(8):
+            if v >= ln and not (v == ln or v == 7):
+                continue
+            rsh = [0, 2, 5, 29][(ln + v) % 4]
+            data = table(ln)
+            w = idxword(v, rsh, 3)
+            add(f"retr be={BES[bk % 2]} bits=3 rsh={rsh} idxword={w} data={','.join(map(str, data))}",
+                f"retr bits=3 rsh={rsh} idxword={w} data={','.join(map(str, data))}",
+                ("retr", data, v), ("retr", ln, 3, "in" if v < ln else "out", BES[bk % 2]))
+            bk += 1
+    for ln, bits in [(3, 5), (4, 5), (16, 5), (17, 5), (25, 5), (32, 5), (5, 2), (2, 1), (9, 4), (6, 4)]:
+        vs = sorted(set([0, 1, ln - 1, ln // 2] + [r.below(ln) for _ in range(1 if quick else 6)]))
+        for v in vs:
+            if v >= (1 << bits):
+                continue
+            rsh = r.choice([0, 3, 32 - bits])
+            data = table(ln)
+            w = idxword(v, rsh, bits)
+            add(f"retr be={BES[bk % 2]} bits={bits} rsh={rsh} idxword={w} data={','.join(map(str, data))}",
+                f"retr bits={bits} rsh={rsh} idxword={w} data={','.join(map(str, data))}",
+                ("retr", data, v), ("retr", ln, bits, "in", BES[bk % 2]))
+            bk += 1
+    for size in list(range(1, 9)) + [16, 17, 25]:    # one-shot retriever
+        lens = [size] if size < 8 else [size, size - 3]
+        for ln in lens:
+            vs = range(ln) if size <= 8 else sorted(set([0, ln - 1, r.below(ln), r.below(ln)]))
+            for v in vs:
+                rsh = [0, 2][(size + v) % 2]
+                nb = max(1, (size - 1).bit_length())
+                data = table(ln)
+                w = idxword(v, rsh, nb)
+                add(f"retr1 be={BES[bk % 2]} size={size} rsh={rsh} idxword={w} data={','.join(map(str, data))}",
+                    f"retr1 size={size} rsh={rsh} idxword={w} data={','.join(map(str, data))}",
+                    ("retr1", data, v, size), ("retr1", size, ln == size, BES[bk % 2]))
+                bk += 1
+    for bits, keysets in [(3, [[0, 2, 5], [1, 3, 4, 6, 7], list(range(8)), [7], []]), (5, [list(range(0, 32, 3)), [31, 16, 15]]), (1, [[1], [0, 1]])]:
+        for keys in keysets:
+            vs = range(1 << bits) if bits <= 3 else sorted(set([0, 3, 15, 16, 31, r.below(32)]))
+            for v in vs:
+                if quick and bits == 3 and len(keys) in (5, 1) and v % 2:
+                    continue
+                rsh = r.choice([0, 1, 32 - bits])
+                vals = [(r.next() & M32) | 1 for _ in keys]
+                w = idxword(v, rsh, bits)
+                tbl = dict(zip(keys, vals))
+                add(f"sel be={BES[bk % 2]} bits={bits} rsh={rsh} idxword={w} keys={','.join(map(str, keys)) or '-'} vals={','.join(map(str, vals)) or '-'}",
+                    f"sel bits={bits} rsh={rsh} idxword={w} keys={','.join(map(str, keys)) or '-'} vals={','.join(map(str, vals)) or '-'}",
+                    tbl.get(v, 0), ("sel", bits, len(keys), v in tbl, BES[bk % 2]))
+                bk += 1
     cbt_vals = [0x84838281] if quick else [0x84838281, 0, 0xFFFFFFFF, r.next() & M32]
     for ci, a in enumerate(cbt_vals):
         add(f"cbt be={BES[ci % 2]} a={a}", None, None, ("cbt", BES[ci % 2]))
 
     lines = [f"{i} {h}" for i, (h, m, w, key) in enumerate(reqs)]
     rc, outl, err = ctx.run_lines(binp, ["fheuint"], lines, timeout=3000)
-    mlines = [f"{i} fheuint {m}" for i, (h, m, w, key) in enumerate(reqs) if m is not None]
+    mlines = [f"{i} {'blindsel' if key[0] in ('retr', 'retr1', 'sel') else 'fheuint'} {m}" for i, (h, m, w, key) in enumerate(reqs) if m is not None]
     rc2, mout, _ = ctx.run_lines(drv, [], mlines)
     model = {}
     for ln in mout:
@@ -157,8 +227,40 @@ def run(ctx):
                     ctx.oracle_failures += 1
                     witness = witness or {"kind": "cbt", "line": lines[i], "implementation": got}
                 continue
-            exp = f"ok {want}"
             mv = model.get(i)
+            if kind in ("retr", "retr1"):
+                if got.startswith("panic") and (mv or "").startswith("panic"):
+                    mv = got                       # panic classes are not printed by this harness command
+                if m is not None and mv != got:
+                    ctx.disagreements += 1
+                    if len(broken) < 20:
+                        broken.append(f"{kind}: {h[:160]} implementation={got[:120]} model={str(mv)[:120]}")
+                data, v = want[1], want[2]
+                bad = None
+                if kind == "retr":
+                    d = kv(got.split())
+                    fw = d.get("fwd", "").split(",")
+                    rv = d.get("rev", "").split(",")
+                    if not got.startswith("ok"):
+                        bad = "panics"
+                    elif rv != [str(x) for x in data]:
+                        bad = "the reverse pass does not restore the table"
+                    elif v < len(data) and fw[0] != str(data[v]):
+                        bad = f"element 0 after the forward pass is {fw[0]}, table[{v}] = {data[v]}"
+                else:
+                    size = want[3]
+                    if size == 1:
+                        if got.startswith("panic"):
+                            known_size1.append({"line": lines[i], "implementation": got})
+                        elif got != f"ok {data[0]}":
+                            bad = "wrong element"
+                    elif v < len(data) and got != f"ok {data[v]}":
+                        bad = f"returned {got}, table[{v}] = {data[v]}"
+                if bad:
+                    ctx.oracle_failures += 1
+                    witness = witness or {"kind": kind, "table_length": len(data), "index": v, "line": lines[i], "implementation": got[:300], "why": bad}
+                continue
+            exp = f"ok {want}"
             if m is not None and mv != got:
                 ctx.disagreements += 1
                 if len(broken) < 20:
@@ -178,6 +280,12 @@ def run(ctx):
             ctx.disagreements += 1
             broken.append(f"bitindex table {bits}: {lo[T]}")
 
+    if known_size1:
+        ctx.violation("GLWEBlindRetriever::alloc(infos, 1) allocates no accumulator: retrieve() of a one-element table panics in add_core "
+                      "(split_at_mut(1) of an empty slice, 'mid > len') instead of returning the element",
+                      {"witness": known_size1[0], "count": len(known_size1), "theorem": "C15.retrieve_instances (second conjunct)",
+                       "rerun": "printf '1 retr1 be=fft64ref size=1 rsh=0 idxword=0 data=10\\n' | harness/target/release/pvh fheuint"}, True,
+                      key="GLWEBlindRetriever:size=1")
     if broken or witness:
         ctx.log("broken:", *broken[:6])
         if witness:
